@@ -11,6 +11,8 @@ R19.3 the character loop of byte_to_line_num_and_col_num, read as a finite trans
       except an LF that immediately follows a CR (finite-model comparison; LF only as the last character of a line)
 R19.5 no byte offset that reaches Span::new or a slice bound is formed as `.. + line.len() + 1` from an item of str::lines()
       (lines() strips CR LF as well as LF)
+R19.6 every library construction of a lexer hands over a line table built from exactly the lexer's text (from_str(text), or pieces that
+      provably tile it)
 R19.2 the premises of T1/T2: `NewlineCache::new` builds the table as the one-element array [0]; every other function that
       obtains `&mut newlines` only hands it to `extend`/`push` (nothing removes, truncates, clears or overwrites).
 """
@@ -461,7 +463,139 @@ def r195(facts, res):
     res.floor(R, 'length reads of str::lines() items', n, 1)
 
 
+def r196(facts, res):
+    """The line table a lexer answers position queries from describes the lexer's OWN input: every library call of
+    LRNonStreamingLexer::new(text, lexemes, cache) passes a cache built from exactly `text` - NewlineCache::from_str(text), or a cache
+    fed piece by piece where the pieces provably tile the text (each piece starts where the previous one ended, a cursor records
+    that end on every way round and out of the loop, and the last piece runs to the end)."""
+    R = 'R19.6'
+    from lrstep import is_call, widening_walker
+    n = 0
+    for b in facts.lib_bodies(['lrlex']):
+        if b.from_expansion:
+            continue
+        sites = [(bb, t) for bb, t in b.calls_named('new') if 'LRNonStreamingLexer' in (cpath(t) or '') and len(t['args']) == 3]
+        if not sites:
+            continue
+        loops = b.loops()
+        w = widening_walker(b, facts, max_paths=20000)
+        ps = w.run(0)
+        if w.overflow:
+            res.lost(R, 'path explosion in %s' % b.path)
+            continue
+        for bb, t in sites:
+            n += 1
+            key = 'lexer-cache:%s@%d' % (strip_generics(b.path).split('::')[-1], [x[0] for x in sites].index(bb))
+            evs = [e for p in ps for e in p.events if e[0] == 'call' and e[1] == bb]
+            if not evs:
+                res.lost(R, 'no path reaches the construction of the lexer at line %s' % t.get('line'))
+                continue
+            whole = all(is_call(strip_ref(e[3][2]), 'unwrap') and is_call(strip_ref(strip_ref(e[3][2])[2][0]), 'from_str')
+                        and strip_ref(strip_ref(strip_ref(e[3][2])[2][0])[2][0]) == strip_ref(e[3][0]) for e in evs)
+            if whole:
+                res.ok(R, key, loc_of(b, bb), 'the cache is NewlineCache::from_str of the very text handed to the lexer')
+                continue
+            why = pieces_tile(facts, b, t, loops)
+            if why is None:
+                res.ok(R, key, loc_of(b, bb), 'the cache is fed piece by piece and the pieces tile the text')
+            else:
+                res.bad(R, key, loc_of(b, bb), 'the line table handed to the lexer is not built from exactly the lexer\'s text: %s - positions (line/column, lines of a span) are then '
+                        'computed for a different text, or the queries fail' % why, {'function': b.path})
+    res.floor(R, 'library constructions of a lexer with its line table', n, 2)
+
+
+def pieces_tile(facts, b, t, loops):
+    """None when the feeds into the cache handed over at call `t` tile the text, else the reason they may not"""
+    from lrstep import is_call, widening_walker, loop_assigned
+    L = b.op_root(t['args'][2], stop_named=True)[0]
+    text = b.op_root(t['args'][0], stop_named=True)[0]
+    ds = [d for d in b.defs().get(L, []) if d[1] == 'call']
+    if len(ds) != 1 or cname(ds[0][2]) != 'new' or 'NewlineCache' not in (cpath(ds[0][2]) or ''):
+        return 'the cache is neither from_str(text) nor a fresh NewlineCache::new() fed in this function'
+    feeds = [(bb, ft) for bb, ft in b.calls_named('feed') if ft['args'] and b.op_root(ft['args'][0], stop_named=True)[0] == L]
+    if not feeds:
+        return 'nothing is fed into the cache'
+
+    def piece(term):
+        """(start, end or None) of `text[start..end]` / `text[start..]`, else None"""
+        x = strip_ref(term)
+        if is_call(x, 'index') and len(x[2]) == 2 and strip_ref(x[2][0]) in (('param', text), ('uninit', text)) and x[2][1][0] == 'variant':
+            v = x[2][1]
+            if v[3] == 'Range' and len(v[4]) == 2:
+                return v[4][0], v[4][1]
+            if v[3] == 'RangeFrom' and len(v[4]) == 1:
+                return v[4][0], None
+        if x in (('param', text), ('uninit', text)):
+            return ('const', 0), None
+        return None
+    inloop = [h for h in loops if any(fb in loops[h] for fb, _ in feeds)]
+    if len(inloop) > 1:
+        inloop = [min(inloop, key=lambda h: -len(loops[h]))]
+    cursors = [l for l in range(len(b.locals)) if b.lty(l) == 'usize' and b.name_of(l) and l > b.arg_count]
+    good_cursor = None
+    for c in cursors:
+        ok = True
+        base = ('uninit', c)
+        for h in inloop:
+            w = widening_walker(b, facts, max_paths=4096)
+            w.widen_headers = set(loops) - {h}
+            w.widen_assigned = {x: loop_assigned(b, x) for x in w.widen_headers}
+            for p in w.run(h, stop=lambda x, LB=loops[h]: x not in LB):
+                if p.end[0] in ('diverge', 'abort'):
+                    continue
+                pos = base
+                for e in p.events:
+                    if e[0] == 'call' and e[2] and e[2]['name'] == 'feed' and any(e[1] == fb for fb, _ in feeds):
+                        pc = piece(e[3][1])
+                        if pc is None or pc[0] != pos or pc[1] is None:
+                            ok = False
+                            break
+                        pos = pc[1]
+                fin = w.as_value(p.env, w.read_key(p.env, (c, ())))
+                if fin != pos:
+                    ok = False
+                if not ok:
+                    break
+            if not ok:
+                break
+        if ok:
+            good_cursor = c
+            break
+    if inloop and good_cursor is None:
+        return 'a piece is fed inside the lexing loop on a path on which no cursor ends up at the end of that piece (the same bytes are fed again, or bytes are skipped)'
+    # outside the loops: the cursor starts at 0 and one last piece text[cursor..] is fed
+    outside = [(fb, ft) for fb, ft in feeds if not any(fb in loops[h] for h in loops)]
+    if inloop:
+        if len(outside) != 1:
+            return 'expected one final feed of the unconsumed rest after the loop, found %d' % len(outside)
+        w = widening_walker(b, facts, max_paths=20000)
+        ok_tail = False
+        for p in w.run(0):
+            for e in p.events:
+                if e[0] == 'call' and e[1] == outside[0][0]:
+                    pc = piece(e[3][1])
+                    ok_tail = pc is not None and pc[1] is None and term_has(pc[0], lambda x: isinstance(x, tuple) and len(x) > 3 and x[0] == 'widen' and x[3] == good_cursor)
+                    if not ok_tail:
+                        return 'the final feed does not run from the cursor to the end of the text'
+        init = [d for d in b.defs().get(good_cursor, []) if d[1] == 'stmt' and 'use' in d[2] and (d[2]['use'].get('const') or {}).get('int') == 0 and not any(d[0] in loops[h] for h in loops)]
+        if not init:
+            return 'the cursor does not start at 0'
+        return None if ok_tail else 'the final feed was not found on any path'
+    # no loop: a single feed of the whole text
+    if len(feeds) == 1:
+        w = widening_walker(b, facts, max_paths=20000)
+        for p in w.run(0):
+            for e in p.events:
+                if e[0] == 'call' and e[1] == feeds[0][0]:
+                    pc = piece(e[3][1])
+                    if pc != (('const', 0), None):
+                        return 'the only feed is not the whole text'
+        return None
+    return 'several feeds outside any loop: cannot show that they tile the text'
+
+
 def run(facts, res):
+    r196(facts, res)
     r195(facts, res)
     r191(facts, res)
     r192(facts, res)
